@@ -5,7 +5,7 @@ Part A: the sequential specification `Reg` has the properties the statement list
         list (induction).
 Part B: witness theorems: the implementation model as on the pinned tree (`Cfg.asIs`) does not refine
         `Reg` (F8, F9 sequentially; F10, F10b, F10c under concrete interleavings).
-Part C: the repaired variant refines `Reg` on every sequential run (`seq_refinement`).
+Part C: the repaired variant refines `Reg` on every sequential run (`seq_refinement`, all operation lists).
 Part D: close effects under ALL interleavings (any number of threads, any programs, any schedule, any
         variant): resources are released at most once (`close_effects_once_partial`).
 -/
@@ -614,36 +614,409 @@ theorem sim_isClosed (s : Impl) (hg : Good s) (h : Nat) : Sim s (.isClosed h) :=
       | exact hg
       | exact ⟨by cases i.closed <;> simp, hg⟩
 
+/-! ### the two operations that change the name map: closeModule and instantiate -/
+
+theorem mem_updInst {h : Nat} {f : Inst → Inst} {l : List Inst} {x : Inst} (hx : x ∈ updInst h f l) :
+    ∃ y ∈ l, (y.h = h ∧ x = f y) ∨ (y.h ≠ h ∧ x = y) := by
+  induction l with
+  | nil => simp [updInst] at hx
+  | cons a l ih =>
+    simp only [updInst, List.mem_cons] at hx
+    rcases hx with e | hx
+    · refine ⟨a, List.mem_cons_self, ?_⟩
+      by_cases ha : (a.h == h) = true
+      · simp only [ha, if_true] at e; exact Or.inl ⟨by simpa using ha, e⟩
+      · simp only [ha] at e; exact Or.inr ⟨by simpa using ha, e⟩
+    · obtain ⟨y, hy, r⟩ := ih hx
+      exact ⟨y, List.mem_cons_of_mem _ hy, r⟩
+
+theorem get_some {s : Impl} {h : Nat} {i : Inst} (hget : s.get h = some i) : i ∈ s.insts ∧ i.h = h := by
+  refine ⟨List.mem_of_find?_eq_some hget, ?_⟩
+  have := List.find?_some hget
+  simpa using this
+
+/-- an open, named instance is the owner of its name -/
+theorem owner_of_open {s : Impl} (hg : Good s) {i : Inst} (hi : i ∈ s.insts) (ho : i.closed = none)
+    (hn : i.name ≠ 0) : (abs s).owner i.name = some i.h := by
+  rw [owner_find hn]
+  cases hf : (abs s).mods.find? (fun m => m.isOpen && m.name == i.name) with
+  | none =>
+    have := List.find?_eq_none.mp hf (absInst i) (by simp only [abs]; exact List.mem_map_of_mem hi)
+    simp [absInst, ho] at this
+  | some m =>
+    have hm := List.mem_of_find?_eq_some hf
+    have hp := List.find?_some hf
+    simp only [Bool.and_eq_true, beq_iff_eq] at hp
+    have := hg.inv.oneOwner m hm (absInst i) (by simp only [abs]; exact List.mem_map_of_mem hi) hp.1
+      (by simp [absInst, ho]) (by rw [hp.2]; exact hn) (by rw [hp.2]; rfl)
+    simp only [Option.map_some]
+    exact congrArg some this
+
+theorem insts_same_h {s : Impl} (hg : Good s) {i j : Inst} (hi : i ∈ s.insts) (hj : j ∈ s.insts)
+    (e : i.h = j.h) : i = j := by
+  have hnd := abs_nodup s hg
+  generalize s.insts = l at *
+  induction l with
+  | nil => simp at hi
+  | cons a l ih =>
+    simp only [List.map_cons, List.nodup_cons] at hnd
+    simp only [List.mem_cons] at hi hj
+    rcases hi with rfl | hi <;> rcases hj with rfl | hj
+    · rfl
+    · exact absurd (List.mem_map.mpr ⟨j, hj, e.symm⟩) hnd.1
+    · exact absurd (List.mem_map.mpr ⟨i, hi, e⟩) hnd.1
+    · exact ih hi hj hnd.2
+
+theorem ensureRes_closed (i : Inst) : (ensureRes i).closed = i.closed := by
+  unfold ensureRes; cases i.notifier <;> cases hs : i.sys <;> simp [hs]
+
+theorem ensureRes_h (i : Inst) : (ensureRes i).h = i.h := by
+  unfold ensureRes; cases i.notifier <;> cases hs : i.sys <;> simp [hs]
+
+theorem find_updInst (h : Nat) (f : Inst → Inst) (hf : ∀ i, (f i).h = i.h) (l : List Inst) :
+    (updInst h f l).find? (fun i => i.h == h) = (l.find? (fun i => i.h == h)).map f := by
+  induction l with
+  | nil => rfl
+  | cons a l ih =>
+    simp only [updInst, List.find?_cons]
+    by_cases ha : (a.h == h) = true
+    · simp [ha, hf]
+    · simp [ha, ih]
+
+def closeNames (s : Impl) (h : Nat) (i : Inst) : Option (List (Nat × Nat)) :=
+  if i.name == 0 then s.names else
+  match s.names with
+  | none => none
+  | some nm => if nameLookup i.name nm == some h then some (nameErase i.name nm) else some nm
+
+theorem runOp_close_open (s : Impl) (h c : Nat) (i : Inst) (hget : s.get h = some i) (hcl : i.closed = none) :
+    s.runOp Cfg.repaired (.closeModule h c) =
+      (⟨updInst h ensureRes (updInst h (fun i => { i with closed := some c }) s.insts),
+        s.list.filter (· != h), closeNames s h i, s.rtClosed⟩, .ok) := by
+  have hget' : Impl.get { s with insts := updInst h (fun i => { i with closed := some c }) s.insts } h
+      = some { i with closed := some c } := by
+    simp only [Impl.get] at hget ⊢
+    rw [find_updInst h (fun i => { i with closed := some c }) (fun _ => rfl), hget]; rfl
+  simp only [Impl.runOp, runOpFuel, startPc, stepOp, hget, hcl, Option.isSome_none, Bool.false_eq_true, if_false,
+    Cfg.repaired, if_true, deleteModule, hget', closeNames]
+  cases hn : (i.name == 0) <;> cases hnm : s.names <;> simp
+
+theorem sim_closeModule (s : Impl) (hg : Good s) (h c : Nat) : Sim s (.closeModule h c) := by
+  unfold Sim
+  cases hget : s.get h with
+  | none =>
+    have hh : (abs s).has h = false := by rw [abs_has]; exact (get_none_has s h).mp hget
+    simp [Impl.runOp, runOpFuel, startPc, stepOp, hget, Reg.step, hh]; exact hg
+  | some i =>
+    obtain ⟨himem, hih⟩ := get_some hget
+    have hh : (abs s).has h = true := by
+      rw [abs_has]
+      cases hx : s.has h with
+      | true => rfl
+      | false => have := (get_none_has s h).mpr hx; simp [hget] at this
+    have hinv := step_inv (abs s) (.closeModule h c) hg.inv
+    have honly : ∀ m ∈ (abs s).mods, m.h = h → m = absInst i := by
+      intro m hm e
+      simp only [abs, List.mem_map] at hm
+      obtain ⟨j, hj, rfl⟩ := hm
+      have : j = i := insts_same_h hg hj himem (by simpa [absInst, hih] using e)
+      rw [this]
+    cases hcl : i.closed with
+    | some c0 =>
+      have hid : closeMods h (abs s).mods = (abs s).mods := by
+        apply closeMods_id
+        intro m hm e
+        rw [honly m hm e]; simp [absInst, hcl]
+      have habs : abs s = ((abs s).step (.closeModule h c)).1 := by
+        simp only [Reg.step, hh, if_true, hid]
+      simp only [Impl.runOp, runOpFuel, startPc, stepOp, hget, hcl, Option.isSome_some, if_true]
+      refine ⟨by simp [Reg.step, hh], habs, hg⟩
+    | none =>
+      rw [runOp_close_open s h c i hget hcl]
+      have hstep : (abs s).step (.closeModule h c) = (⟨closeMods h (abs s).mods, (abs s).rtClosed⟩, .ok) := by
+        simp [Reg.step, hh]
+      rw [hstep] at hinv ⊢
+      have habs : abs ⟨updInst h ensureRes (updInst h (fun i => { i with closed := some c }) s.insts),
+          s.list.filter (· != h), closeNames s h i, s.rtClosed⟩ = ⟨closeMods h (abs s).mods, (abs s).rtClosed⟩ := by
+        simp only [abs, map_updInst_same h ensureRes absInst_ensureRes, map_updInst_close]
+      refine ⟨rfl, habs, ?_⟩
+      refine ⟨?_, ?_, ?_, by rw [habs]; exact hinv⟩
+      · -- rt
+        show closeNames s h i = none ↔ s.rtClosed.isSome = true
+        rw [← hg.rt]
+        unfold closeNames
+        cases hn : (i.name == 0) <;> cases hnm : s.names <;> simp
+        split <;> simp
+      · -- nm
+        intro m hm n hn
+        rw [habs]
+        show nameLookup n m = Reg.owner ⟨closeMods h (abs s).mods, (abs s).rtClosed⟩ n
+        rw [owner_find hn]
+        show nameLookup n m = ((closeMods h (abs s).mods).find? _).map _
+        by_cases hne : i.name = n
+        · -- the closed module's own name
+          subst hne
+          have hown := owner_of_open hg himem hcl hn
+          have hreuse := closed_name_reusable (abs s) hg.inv i.name h c (by rw [hown, hih])
+          rw [hstep, owner_find hn] at hreuse
+          rw [show ((closeMods h (abs s).mods).find? _).map _ = none from hreuse]
+          have hn0 : (i.name == 0) = false := by simpa using hn
+          obtain ⟨nm, hnm⟩ : ∃ nm, s.names = some nm := by
+            cases hq : s.names with
+            | none => simp [closeNames, hn0, hq] at hm
+            | some nm => exact ⟨nm, rfl⟩
+          have hl : nameLookup i.name nm = some h := by rw [hg.nm nm hnm i.name hn, hown, hih]
+          simp only [closeNames, hn0, hnm, hl, beq_self_eq_true, if_true] at hm
+          have : m = nameErase i.name nm := by simpa using hm.symm
+          rw [this]; exact nameLookup_erase_self _ _
+        · have hfind := find_closeMods h n (abs s).mods (by
+            intro m' hm' e
+            rw [honly m' hm' e]; simp [absInst, hne])
+          rw [hfind, ← owner_find hn]
+          cases hq : s.names with
+          | none =>
+            simp only [closeNames, hq] at hm
+            split at hm <;> simp at hm
+          | some nm =>
+            rw [← hg.nm nm hq n hn]
+            simp only [closeNames, hq] at hm
+            split at hm
+            · have : m = nm := by simpa using hm.symm
+              rw [this]
+            · split at hm
+              · have : m = nameErase i.name nm := by simpa using hm.symm
+                rw [this]; exact nameLookup_erase_ne n i.name (Ne.symm hne) nm
+              · have : m = nm := by simpa using hm.symm
+                rw [this]
+      · -- lst
+        intro j hj hjc
+        show j.h ∈ s.list.filter (· != h)
+        obtain ⟨y, hy, hyj⟩ := mem_updInst hj
+        obtain ⟨z, hz, hzy⟩ := mem_updInst hy
+        have hjh : j.h ≠ h ∧ j = z := by
+          rcases hzy with ⟨e1, e2⟩ | ⟨e1, e2⟩ <;> rcases hyj with ⟨e3, e4⟩ | ⟨e3, e4⟩
+          · subst e2 e4
+            exfalso
+            rw [ensureRes_closed] at hjc; simp at hjc
+          · subst e2; exact absurd e1 e3
+          · subst e2; exact absurd e3 e1
+          · subst e2 e4; exact ⟨e1, rfl⟩
+        obtain ⟨hne, rfl⟩ := hjh
+        have := hg.lst j hz hjc
+        simp [List.mem_filter, this, hne]
+
+def freshI (h n : Nat) : Inst := ⟨h, n, none, false, true, [], 0⟩
+
+theorem updInst_not_has (h : Nat) (f : Inst → Inst) (l : List Inst) (hh : l.any (fun i => i.h == h) = false) :
+    updInst h f l = l := by
+  induction l with
+  | nil => rfl
+  | cons a l ih =>
+    simp only [List.any_cons, Bool.or_eq_false_iff] at hh
+    simp [updInst, hh.1, ih hh.2]
+
+theorem runOp_inst_closed (s : Impl) (h n c : Nat) (p : Pre) (hrt : s.rtClosed = some c) :
+    s.runOp Cfg.repaired (.instantiate h n p) = (s, .errClosed) := by
+  cases p <;> simp [Impl.runOp, runOpFuel, startPc, stepOp, hrt, Cfg.repaired]
+
+theorem runOp_inst_has (s : Impl) (h n : Nat) (p : Pre) (nm : List (Nat × Nat)) (hrt : s.rtClosed = none)
+    (hnm : s.names = some nm) (hh : s.has h = true) :
+    s.runOp Cfg.repaired (.instantiate h n p) = (s, .bad) := by
+  cases p <;> simp [Impl.runOp, runOpFuel, startPc, stepOp, hrt, Cfg.repaired, typesSection, hnm, afterCompile, hh]
+
+theorem runOp_inst_ok (s : Impl) (h n : Nat) (p : Pre) (nm : List (Nat × Nat)) (hrt : s.rtClosed = none)
+    (hnm : s.names = some nm) (hh : s.has h = false) (hfree : (n != 0 && (nameLookup n nm).isSome) = false) :
+    s.runOp Cfg.repaired (.instantiate h n p) =
+      (⟨{ freshI h n with notifier := true } :: s.insts, h :: s.list,
+        some (if n != 0 then (n, h) :: nm else nm), s.rtClosed⟩, .ok) := by
+  cases p <;> simp [Impl.runOp, runOpFuel, startPc, stepOp, hrt, Cfg.repaired, typesSection, hnm, afterCompile, hh,
+    hfree, freshI]
+
+theorem runOp_inst_dup (s : Impl) (h n : Nat) (p : Pre) (nm : List (Nat × Nat)) (hrt : s.rtClosed = none)
+    (hnm : s.names = some nm) (hh : s.has h = false) (hdup : (n != 0 && (nameLookup n nm).isSome) = true)
+    (hother : nameLookup n nm ≠ some h) :
+    s.runOp Cfg.repaired (.instantiate h n p) =
+      (⟨ensureRes { freshI h n with closed := some 0 } :: s.insts, s.list.filter (· != h),
+        some nm, s.rtClosed⟩, .errDup) := by
+  have hu : ∀ f, updInst h f s.insts = s.insts := fun f => updInst_not_has h f s.insts hh
+  have hn0 : (n == 0) = false := by
+    cases hq : (n == 0) with
+    | false => rfl
+    | true => simp [show n = 0 by simpa using hq] at hdup
+  have hne : (nameLookup n nm == some h) = false := by simpa using hother
+  cases p <;> simp [Impl.runOp, runOpFuel, startPc, stepOp, hrt, Cfg.repaired, typesSection, hnm, afterCompile, hh,
+    hdup, freshI, updInst, hu, deleteModule, Impl.get, hn0, hne]
+
+theorem owner_has {r : Reg} {n h : Nat} (ho : r.owner n = some h) : r.has h = true := by
+  have hn : n ≠ 0 := by intro e; simp [Reg.owner, e] at ho
+  rw [owner_find hn] at ho
+  obtain ⟨m, hfind, e⟩ : ∃ m, r.mods.find? (fun m => m.isOpen && m.name == n) = some m ∧ m.h = h := by
+    simpa using ho
+  exact (has_iff r h).mpr (List.mem_map.mpr ⟨m, List.mem_of_find?_eq_some hfind, e⟩)
+
+theorem owner_cons_closed (r : Reg) (h n k : Nat) :
+    Reg.owner { r with mods := ⟨h, n, false⟩ :: r.mods } k = r.owner k := by
+  simp [Reg.owner]
+
+theorem owner_cons_open (r : Reg) (h n k : Nat) (hk : k ≠ 0) :
+    Reg.owner { r with mods := ⟨h, n, true⟩ :: r.mods } k = if n == k then some h else r.owner k := by
+  simp only [Reg.owner, List.find?_cons, Bool.true_and]
+  have : (k == 0) = false := by simpa using hk
+  simp only [this, Bool.false_eq_true, if_false]
+  by_cases hnk : (n == k) = true <;> simp [hnk]
+
+theorem sim_instantiate (s : Impl) (hg : Good s) (h n : Nat) (p : Pre) : Sim s (.instantiate h n p) := by
+  unfold Sim
+  have hinv := step_inv (abs s) (.instantiate h n p) hg.inv
+  cases hrt : s.rtClosed with
+  | some c =>
+    rw [runOp_inst_closed s h n c p hrt]
+    have : (abs s).rtClosed = true := by simp [abs, hrt]
+    simp only [Reg.step, this, if_true]
+    exact ⟨trivial, trivial, hg⟩
+  | none =>
+    obtain ⟨nm, hnm⟩ := names_some_of_open hg hrt
+    have hrc : (abs s).rtClosed = false := by simp [abs, hrt]
+    cases hh : s.has h with
+    | true =>
+      rw [runOp_inst_has s h n p nm hrt hnm hh]
+      have : (abs s).has h = true := by rw [abs_has]; exact hh
+      simp only [Reg.step, hrc, this, if_true, Bool.false_eq_true, if_false]
+      exact ⟨trivial, trivial, hg⟩
+    | false =>
+      have hah : (abs s).has h = false := by rw [abs_has]; exact hh
+      have hne_h : ∀ j ∈ s.insts, j.h ≠ h := by
+        intro j hj e
+        simp only [Impl.has, List.any_eq_false] at hh
+        exact hh j hj (by simp [e])
+      have hlook : (n != 0 && (nameLookup n nm).isSome) = ((abs s).owner n).isSome := by
+        by_cases hn : n = 0
+        · subst hn; simp [Reg.owner]
+        · rw [hg.nm nm hnm n hn]; simp [hn]
+      cases hown : ((abs s).owner n).isSome with
+      | true =>
+        rw [hown] at hlook
+        have hn : n ≠ 0 := by intro e; subst e; simp at hlook
+        have hother : nameLookup n nm ≠ some h := by
+          intro e
+          rw [hg.nm nm hnm n hn] at e
+          have := owner_has e
+          rw [hah] at this; exact absurd this (by simp)
+        rw [runOp_inst_dup s h n p nm hrt hnm hh hlook hother]
+        have hstep : (abs s).step (.instantiate h n p) = ({ (abs s) with mods := ⟨h, n, false⟩ :: (abs s).mods }, .errDup) := by
+          simp [Reg.step, hrc, hah, hown]
+        rw [hstep] at hinv ⊢
+        have habs : abs ⟨ensureRes { freshI h n with closed := some 0 } :: s.insts, s.list.filter (· != h), some nm, s.rtClosed⟩
+            = { (abs s) with mods := ⟨h, n, false⟩ :: (abs s).mods } := by
+          simp only [abs, List.map_cons, absInst_ensureRes]; rfl
+        refine ⟨rfl, habs, ?_⟩
+        refine ⟨by simp [hrt], ?_, ?_, by rw [habs]; exact hinv⟩
+        · intro m hm k hk
+          rw [habs, owner_cons_closed]
+          have : m = nm := by simpa using hm.symm
+          rw [this]; exact hg.nm nm hnm k hk
+        · intro j hj hjc
+          simp only [List.mem_cons] at hj
+          rcases hj with rfl | hj
+          · rw [ensureRes_closed] at hjc; simp at hjc
+          · have := hg.lst j hj hjc
+            simp [List.mem_filter, this, hne_h j hj]
+      | false =>
+        rw [hown] at hlook
+        rw [runOp_inst_ok s h n p nm hrt hnm hh hlook]
+        have hstep : (abs s).step (.instantiate h n p) = ({ (abs s) with mods := ⟨h, n, true⟩ :: (abs s).mods }, .ok) := by
+          simp [Reg.step, hrc, hah, hown]
+        rw [hstep] at hinv ⊢
+        have habs : abs ⟨{ freshI h n with notifier := true } :: s.insts, h :: s.list,
+            some (if n != 0 then (n, h) :: nm else nm), s.rtClosed⟩
+            = { (abs s) with mods := ⟨h, n, true⟩ :: (abs s).mods } := by
+          simp only [abs, List.map_cons]; rfl
+        refine ⟨rfl, habs, ?_⟩
+        refine ⟨by simp [hrt], ?_, ?_, by rw [habs]; exact hinv⟩
+        · intro m hm k hk
+          rw [habs, owner_cons_open _ _ _ _ hk]
+          have hm' : m = if n != 0 then (n, h) :: nm else nm := by simpa using hm.symm
+          rw [hm']
+          by_cases hn : n = 0
+          · subst hn
+            have : (0 == k) = false := by simpa using (Ne.symm hk)
+            simp [this]; exact hg.nm nm hnm k hk
+          · have hn' : (n != 0) = true := by simpa using hn
+            simp only [hn', if_true, nameLookup]
+            by_cases hnk : (n == k) = true
+            · simp [hnk]
+            · simp only [hnk, Bool.false_eq_true, if_false]; exact hg.nm nm hnm k hk
+        · intro j hj hjc
+          simp only [List.mem_cons] at hj
+          rcases hj with rfl | hj
+          · simp [freshI]
+          · exact List.mem_cons_of_mem _ (hg.lst j hj hjc)
+
 /-! ## Part C: sequential refinement of the repaired variant -/
 
-/-- **Sequential refinement, partial.** Full statement (NOT proved here):
-  `∀ ops, (Impl.run Cfg.repaired Impl.init ops).2 = (Reg.run Reg.init ops).2`
-— every sequential run of the repaired implementation model returns what the atomic registry returns
-(false for `Cfg.asIs`: `dup_name_witness`, `host_compile_witness`).
-Proved: the simulation step, from EVERY state satisfying the simulation invariant `Good` (name map =
-owners, list ⊇ open instances, closed flags consistent, `RegInv`), for compile, hostCompile, lookup,
-isClosed and closeRuntime: same result, abstraction commutes, invariant preserved.
-Missing: the same step for instantiate and closeModule (the lemmas about `nameErase`/`closeMods`/
-`find?` they need are proved above: `nameLookup_erase_ne`, `nameLookup_erase_self`, `find_closeMods`,
-`closeMods_id`, `map_updInst_close`, `closed_name_reusable`); the differential sequential runs of the
-harness (real code vs `Impl` vs `Reg`, exact result equality) cover these two operations. -/
-theorem seq_refinement_partial (s : Impl) (hg : Good s) (op : Op)
-    (hop : match op with | .instantiate _ _ _ => False | .closeModule _ _ => False | _ => True) :
+/-- **Sequential refinement, one operation.** From EVERY state satisfying the simulation invariant `Good`
+(name map = owners, list ⊇ open instances, closed flags consistent, `RegInv`) and for EVERY operation, running
+the operation to completion on the repaired implementation model returns exactly what the atomic registry
+returns on the abstraction of the state, the abstraction commutes with the step, and the invariant is
+preserved. No precondition on handles or names is needed: a reused handle is answered `bad` by both sides. -/
+theorem seq_refinement_step (s : Impl) (hg : Good s) (op : Op) :
     (s.runOp Cfg.repaired op).2 = ((abs s).step op).2 ∧
     abs (s.runOp Cfg.repaired op).1 = ((abs s).step op).1 ∧ Good (s.runOp Cfg.repaired op).1 := by
   cases op with
-  | instantiate h n p => exact absurd hop id
-  | closeModule h c => exact absurd hop id
+  | instantiate h n p => exact sim_instantiate s hg h n p
+  | closeModule h c => exact sim_closeModule s hg h c
   | lookup n => exact sim_lookup s hg n
   | compile => exact sim_compile s hg
   | hostCompile f => exact sim_hostCompile s hg f
   | closeRuntime c => exact sim_closeRuntime s hg c
   | isClosed h => exact sim_isClosed s hg h
 
+/-- The simulation step restricted to the operations that do not change the name map (kept under its old
+name; now a corollary of `seq_refinement_step`, which has no restriction on the operation). -/
+theorem seq_refinement_partial (s : Impl) (hg : Good s) (op : Op)
+    (hop : match op with | .instantiate _ _ _ => False | .closeModule _ _ => False | _ => True) :
+    (s.runOp Cfg.repaired op).2 = ((abs s).step op).2 ∧
+    abs (s.runOp Cfg.repaired op).1 = ((abs s).step op).1 ∧ Good (s.runOp Cfg.repaired op).1 :=
+  seq_refinement_step s hg op
+
 /-- Non-vacuity: the initial state is `Good`, and so is a state with an open named module. -/
 theorem good_init : Good Impl.init :=
   ⟨by simp [Impl.init], by intro m hm n hn; simp [Impl.init] at hm; subst hm; simp [nameLookup, abs, Impl.init, Reg.owner, hn],
    by simp [Impl.init], (show RegInv (abs Impl.init) from (rfl : abs Impl.init = Reg.init) ▸ init_inv)⟩
+
+/-- Sequential refinement from any `Good` state: results, final abstraction and invariant. -/
+theorem seq_refinement_from (ops : List Op) (s : Impl) (hg : Good s) :
+    (Impl.run Cfg.repaired s ops).2 = (Reg.run (abs s) ops).2 ∧
+    abs (Impl.run Cfg.repaired s ops).1 = (Reg.run (abs s) ops).1 ∧ Good (Impl.run Cfg.repaired s ops).1 := by
+  induction ops generalizing s with
+  | nil => exact ⟨rfl, rfl, hg⟩
+  | cons op ops ih =>
+    obtain ⟨h1, h2, h3⟩ := seq_refinement_step s hg op
+    obtain ⟨i1, i2, i3⟩ := ih _ h3
+    simp only [Impl.run, Reg.run]
+    rw [h2] at i1 i2
+    exact ⟨by rw [h1, i1], i2, i3⟩
+
+/-- **Sequential refinement.** EVERY sequential run of the repaired implementation model (all five finding
+switches on) returns exactly what the atomic registry returns — for every operation list, with no
+well-formedness hypothesis (false for `Cfg.asIs`: `dup_name_witness`, `host_compile_witness`). -/
+theorem seq_refinement (ops : List Op) :
+    (Impl.run Cfg.repaired Impl.init ops).2 = (Reg.run Reg.init ops).2 :=
+  (seq_refinement_from ops Impl.init good_init).1
+
+/-- Non-vacuity of `seq_refinement`: the common result list is not degenerate. The list exercises
+instantiate (success, duplicate name, host pre-compiled), a reused handle, closeModule (twice), re-instantiation
+of the freed name, lookup, isClosed, closeRuntime, and requests after the runtime is closed. -/
+example : (Impl.run Cfg.repaired Impl.init [.instantiate 1 1 .none, .instantiate 2 1 .bin, .instantiate 1 2 .none,
+    .lookup 1, .closeModule 1 3, .closeModule 1 4, .lookup 1, .instantiate 3 1 .host, .lookup 1, .isClosed 1,
+    .isClosed 2, .isClosed 3, .closeRuntime 0, .isClosed 3, .lookup 1, .instantiate 4 5 .host, .hostCompile true]).2 =
+  [.ok, .errDup, .bad, .found 1, .ok, .ok, .notFound, .ok, .found 3, .closedIs true, .closedIs true,
+    .closedIs false, .ok, .closedIs true, .notFound, .errClosed, .errClosed] ∧
+  (Reg.run Reg.init [.instantiate 1 1 .none, .instantiate 2 1 .bin, .instantiate 1 2 .none,
+    .lookup 1, .closeModule 1 3, .closeModule 1 4, .lookup 1, .instantiate 3 1 .host, .lookup 1, .isClosed 1,
+    .isClosed 2, .isClosed 3, .closeRuntime 0, .isClosed 3, .lookup 1, .instantiate 4 5 .host, .hostCompile true]).2 =
+  [.ok, .errDup, .bad, .found 1, .ok, .ok, .notFound, .ok, .found 3, .closedIs true, .closedIs true,
+    .closedIs false, .ok, .closedIs true, .notFound, .errClosed, .errClosed] := by decide
 
 /-- test (sample): on this operation list the repaired model and the specification agree -/
 example : (Impl.run Cfg.repaired Impl.init [.instantiate 1 1 .none, .instantiate 2 1 .bin, .lookup 1, .closeModule 1 3,
